@@ -54,6 +54,7 @@ pub fn dispatch(line: &str) -> String {
         "ghw" => ghwcmd::ghw(&toks),
         "wavedump" => ghwcmd::wavedump(&toks),
         "pairhex" => ghwcmd::pairhex(&toks),
+        "fstfile" => ghwcmd::wave_dump(crate::util::hex_bytes(toks[3]), true),
         "serdert" => serdecmd::serdert(&toks),
         "serdejson" => serdecmd::serdejson(&toks),
         "detect" => detect::detect(&toks),
